@@ -34,7 +34,9 @@ theorem fixed_F17_short_salt :
     decodeMeta t!"version=8\nsalt=00ff" = .err .corruptionBadSalt := by
   decide
 
-/-- `from_string` never panics, hence neither does `load_metadata_file`. -/
+/-- `from_string` never panics, hence neither does `load_metadata_file`: every code that
+passes the guard is a known discriminant (`guard_no_panic`, an obligation on the generated
+guard variant and discriminant table). -/
 theorem fromString_ne_panic (s : Text) : fromString s ≠ .panic := by
   intro h
   simp only [fromString] at h
@@ -42,9 +44,12 @@ theorem fromString_ne_panic (s : Text) : fromString s ≠ .panic := by
   · cases h
   · split at h
     · cases h
-    · split at h
+    · rename_i hle
+      split at h
       · cases h
-      · split at h <;> cases h
+      · cases h
+      · rename_i hp
+        exact guard_no_panic _ (Nat.le_of_not_gt hle) hp
 
 theorem stepLine_ne_panic (st : MetaAcc) (l : Text) : stepLine st l ≠ .panic := by
   unfold stepLine
